@@ -203,16 +203,11 @@ def readTagValue : Nat → Nat → Nat → Nat → M Bytes
   | 0, _, _, _ => fail .fuel
   | f+1, sz, i, j => do
     let buf ← peek sz
-    let ij ← (if i == 0 then do
-        let b0 ← at? buf 0
-        let i1 ← (if b0 == 62 then pure 1
-                  else if b0 == 47 then do
-                    let b1 ← at? buf 1
-                    pure (if b1 == 62 then 2 else 0)
-                  else pure 0 : M Nat)
-        let i2 := idxFrom (fun b => !isWs b) buf i1
-        pure (i2, i2)
-      else pure (i, j) : M (Nat × Nat))
+    -- (repaired) no '>' or "/>" is skipped here: the tag header or its last attribute has consumed it
+    let ij : Nat × Nat := if i == 0 then
+        let i2 := idxFrom (fun b => !isWs b) buf 0
+        (i2, i2)
+      else (i, j)
     let k := idxFrom (fun x => x == 60) buf ij.2
     if k < buf.length then do
       discard k
